@@ -51,7 +51,8 @@ func (c *Ctx) commitCase(sc sqCase) {
 	sq := b.sq
 	raw := sharesToBytes(sq)
 	side := sq.Size()
-	c.emit(fmt.Sprintf("sq construct %d %d %s", sc.max, sc.thr, hxList(b.kept)), "ok "+digList(raw))
+	c.setClass(sc.class)
+	c.emit("sh set "+hxList(raw), "ok "+digList(raw))
 	wp, _ := safeWPFBs(sq)
 	rowCache := map[int]map[string]bool{}
 	for i := 0; i < side && i < 4; i++ {
@@ -91,9 +92,6 @@ func (c *Ctx) commitCase(sc sqCase) {
 			}
 			c.emit(op, "ok "+strings.Join(parts, ","))
 			c.oracle()
-			if sc.class == "compact-ns-blob" {
-				continue
-			}
 			own, _ := blob.ToShares()
 			n := len(own)
 			if j >= len(iw.ShareIndexes) {
